@@ -310,7 +310,10 @@ type raceReport struct {
 	text   string
 }
 
+var harnessRaces int
+
 func readRaceLogs() []raceReport {
+	harnessRaces = 0
 	gr := os.Getenv("GORACE")
 	var prefix string
 	for _, f := range strings.Fields(gr) {
@@ -356,7 +359,9 @@ func readRaceLogs() []raceReport {
 				}
 			}
 			if len(frames) == 0 {
-				continue // a race that does not involve klevdb code (harness): reported separately
+				// a race that does not involve klevdb code: a harness fault, never a verdict on klevdb
+				harnessRaces++
+				continue
 			}
 			sort.Strings(frames)
 			out = append(out, raceReport{frames: strings.Join(frames, " <-> "), text: clipStr(blk, 4000)})
